@@ -17,7 +17,8 @@ RULE = (
     "called without `inputs` vs with inputs = the reference set computed on the IR (requires-grad leaves reachable "
     "from the outputs through differentiable paths). mtl_backward: generated trunk/heads programs (features that are "
     "sibling outputs of a multi-output op, heads reaching the trunk around the features incl. through siblings, "
-    "losses using only some features, leaves shared between tasks) called without tasks_params/shared_params vs "
+    "losses using only some features, leaves shared between tasks) called without tasks_params/shared_params (or with only "
+    "one of them omitted) vs "
     "with the reference sets (shared = leaves of the features; task i = leaves of loss i not passing through the "
     "feature TENSORS). Oracle: when the reference default sets are disjoint both calls leave identical .grad on "
     "every leaf (incl. None-ness); when they overlap the defaulted call must raise ValueError and leave every .grad "
@@ -55,7 +56,9 @@ def _case(draw):
         m = sum(P.numel(shapes[tuple(r)]) for r in prog["outputs"])
     w = (rng.integers(1, 6, size=m) + 0.25 * np.arange(m)).tolist()
     return {"kind": "mtl" if kind == "mtl" else "backward", "prog": prog, "w": w, "pre": jdcheck.pre_grads(rng, prog, 0.3),
-            "deep": kind == "deep"}
+            "deep": kind == "deep",
+            # which of the two lists is left to the default (both, or only one: "mixed" calls)
+            "defaulted": ["both", "both", "tasks", "shared"][int(rng.integers(0, 4))]}
 
 
 def parts(tier):
@@ -121,6 +124,12 @@ def run_case(case) -> Outcome:
     feats = prog["features"]
     d_shared = sorted(P.leaf_deps(prog, feats))
     d_tasks = [sorted(P.leaf_deps(prog, [l], stop=feats)) for l in prog["losses"]]
+    defaulted = case.get("defaulted", "both")
+    out.cls("defaulted:" + defaulted)
+    # the list that is passed explicitly is the one the program declares (trunk leaves / listed task leaves)
+    x_shared = d_shared if defaulted in ("both", "shared") else list(prog["shared_leaves"])
+    x_tasks = d_tasks if defaulted in ("both", "tasks") else [list(t) for t in prog["task_leaves"]]
+    d_shared, d_tasks = x_shared, x_tasks
     task_union = {p for t in d_tasks for p in t}
     overlap = bool(set(d_shared) & task_union)
     # leaves reached around a feature through a sibling result of the feature's own multi-output node
@@ -135,8 +144,13 @@ def run_case(case) -> Outcome:
     through_and_around = bool(set(P.leaf_deps(prog, prog["losses"])) & set(d_shared) & task_union)
     losses1 = [g1.get(l) for l in prog["losses"]]
     f1 = [g1.get(f) for f in feats]
+    kw1 = {}
+    if defaulted == "tasks":
+        kw1["shared_params"] = [g1.leaves[p] for p in d_shared]
+    elif defaulted == "shared":
+        kw1["tasks_params"] = [[g1.leaves[p] for p in t] for t in d_tasks]
     try:
-        mtl_backward(losses1, f1, Constant(w), retain_graph=True)
+        mtl_backward(losses1, f1, Constant(w), retain_graph=True, **kw1)
         raised = None
     except ValueError as e:
         raised = e
